@@ -4,6 +4,7 @@ import time
 
 import genchart
 import ifam
+import sx
 from ifam import B
 from common import (COQ, Verdict, log, proof_stage, repo_blob_ids, write_evidence, TRUSTED_BASE,
                     load_known_findings)
@@ -153,7 +154,7 @@ def run(prop, tier, seed, profile, spec, interest, proof_files, n_quick=1500, n_
         traces_validated_against_impl=len(cases), charts=stats['charts'], errors_hit=stats['errors'],
         input_distribution=dist, mismatches_attributed_to_this_property=clauses,
         hypotheses_on_the_charts_that_were_run=dict(ifam.HYP, note='number of generated charts (counted once per case file) passing the decidable '
-                                                   'forms of DESIGN.md section 2 (C02Proofs.wf_chart_b) and of the tree hypotheses (C03Proofs.tree_okb)'),
+                                                   'forms of DESIGN.md section 2 (C02Proofs.wf_chart_b), of the tree hypotheses (C03Proofs.tree_okb) and of duplicate-free dictionaries (WFProofs.dict_okb): the hypotheses of the theorems hold of what was run'),
         mismatches_not_about_this_property=other, samples=samples,
         source_blobs=repo_blob_ids(['sismic/interpreter/default.py', 'sismic/code/python.py', 'sismic/utilities.py',
                                     'sismic/model/statechart.py', 'sismic/interpreter/listener.py']),
@@ -319,6 +320,9 @@ def interest_c13(mask, fdk, mcode, case):
         return 'while a listener handles a meta-event of the step, the interpreter\'s time is not the value sampled for the step (C13_frozen)'
     if mask & B.PB_TIMES:
         return 'step time not frozen or entry/idle times not as the macro step says (C13_frozen/C13_entry_idle)'
+    if case['op'][0] == 'exec' and case['out'][0] == 'err' and (mask & B.TIMES) \
+            and not (mask & (B.OUTCOME | B.CONFIG | B.SELECTED)):
+        return 'after a step that raised, the entry/idle times are not those of the states entered / transitions processed before the failure (C13_entry_idle)'
     if case['op'][0] == 'queue' and mask & B.TIMES:
         return 'time changed outside execute_once (C13_frozen)'
     return None
@@ -332,3 +336,62 @@ def interest_c15(mask, fdk, mcode, case):
     if mask & B.BOUND:
         return 'deliveries to bound callables/interpreters differ (C15_delivery/C15_filter/C15_detach)'
     return None
+
+
+# ---------------------------------------------------------------------------------------------
+# replay of a reported case on the implementation as it is now
+# ---------------------------------------------------------------------------------------------
+def _unval(v):
+    return {'i': lambda: v[1], 'b': lambda: v[1], 's': lambda: v[1], 'n': lambda: None}[v[0]]()
+
+
+def _unevent(e):
+    from sismic.model import Event, InternalEvent, MetaEvent
+    kind, name, data = e
+    d = {k: _unval(v) for k, v in data if '.' not in k}
+    return {'E': Event, 'I': InternalEvent, 'M': MetaEvent}[kind](name, **d)
+
+
+def replay(path):
+    """Rebuild the statechart of the replay file, put a fresh interpreter of the CURRENT implementation into the recorded
+    pre-state, perform the recorded operation and print what happens next to what was recorded."""
+    import json
+    import sismic.io
+    r = json.load(open(path))
+    if 'chart_yaml' not in r or 'pre_state' not in r:
+        print(json.dumps(r, indent=1)[:4000])
+        return 0
+    sc = sismic.io.import_from_yaml(r['chart_yaml'])
+    holder = {}
+
+    def tick():
+        holder['s'].clock.time += 1
+    scn = sx.Scenario(sc, n_rec=sum(1 for k, _ in r.get('listeners', []) if k == 'rec'), initial_context={'tick': tick},
+                      ignore_contract=r['pre_state'].get('ignore', False))
+    holder['s'] = scn
+    it, pre = scn.interp, r['pre_state']
+    it._initialized = pre['initialized']
+    it._time = pre['time']
+    it._configuration = set(pre['config'])
+    it._memory = {k: list(v) for k, v in pre['memory']}
+    it._entry_time = dict((k, v) for k, v in pre['entry'])
+    it._idle_time = dict((k, v) for k, v in pre['idle'])
+    it._sent_events = [_unevent(e) for e in pre['sent']]
+    it._internal_queue = [(t, _unevent(e)) for t, e in pre['iq']]
+    it._external_queue = [(t, _unevent(e)) for t, e in pre['eq']]
+    for k, v in pre['ctx']:
+        it._evaluator._context[k] = _unval(v)
+    op = r['operation']
+    if op[0] == 'exec':
+        scn.clock.time = op[1]
+        case = scn.step_case(('exec',))
+    else:
+        case = scn.step_case(('queue', _unevent(op[1])))
+    print('property            :', r.get('property'), '-', r.get('clause'))
+    print('operation           :', op)
+    print('recorded outcome    :', json.dumps(r.get('implementation_outcome'), default=str)[:1500])
+    print('outcome now         :', json.dumps(case['out'], default=str)[:1500])
+    print('recorded post config:', r.get('implementation_post_state', {}).get('config'))
+    print('post config now     :', list(case['post']['config']))
+    print('(the __old__ store of the pre-state is not restored: contracts reading __old__ may differ)')
+    return 0
